@@ -1488,9 +1488,8 @@ class UWG(object):
                     self._init_param_dict[row[0]] = float(row[1])
                     count += 1
             except (ValueError, IndexError) as e:
-                print(e)
-                print('Error while reading parameter at row {}. Got: {}.'.format(
-                    count, row))
+                raise Exception('Error while reading parameter at row {}. Got: {}. '
+                                '{}'.format(count, row, e))
 
         # Set UWG parameters
         for attr in self.PARAMETER_LIST:
